@@ -231,6 +231,23 @@ def run_case(case):
             if hasattr(obj, "create_adjacency_matrix"):
                 events.append(ev("roundtrip/adjacency-%s" % how, bool(np.array_equal(np.asarray(back.create_adjacency_matrix()), np.asarray(obj.create_adjacency_matrix()))),
                                  key=key + "/roundtrip-adjacency", variant=vname))
+    # ---- history: a caller edits the matrix it was handed (hopping amplitudes, chemical potential); later requests - on this object, on an
+    # equal fresh one, on its round trip - must still return the lattice's graph
+    if hasattr(lat, "create_adjacency_matrix"):
+        first = lat.create_adjacency_matrix()
+        keep = np.array(np.asarray(first), copy=True)
+        if isinstance(first, np.ndarray) and first.flags.writeable:
+            first *= -2
+            np.fill_diagonal(first, 4)
+            again = [("same-object", lat), ("equal-fresh-object", construct(case))]
+            try:
+                leaves_, td_ = jax.tree_util.tree_flatten(lat)
+                again.append(("round-trip", jax.tree_util.tree_unflatten(td_, leaves_)))
+            except Exception:
+                pass
+            for nm_, obj_ in again:
+                events.append(ev("adjacency/unaffected-by-edits-of-an-earlier-result", bool(np.array_equal(np.asarray(obj_.create_adjacency_matrix()), keep)),
+                                 key=key + "/adjacency-aliasing", which=nm_))
     # ---- equality must see every attribute: objects that differ in one attribute are different objects, and when lattices are
     # used as static (hashed) arguments of a jitted function each one gets its own trace
     others = [o for (v, o) in variants if v == "non-default"]
